@@ -60,11 +60,30 @@ SigF29(pre, cx1, ev, res, post, cx2, pred) ==
   /\ ev.op = "Duplicate" /\ res.t = "ok"
   /\ \E i, j \in 1..Len(pre.models[ev.m].files) : pre.f[pre.models[ev.m].files[i]].ver # pre.f[pre.models[ev.m].files[j]].ver
 
+\* F35: a SHORT-NAME element itself can be copied or moved into an element that has none (e.g. an element that a lenient load
+\* left without a name): the receiving element becomes identifiable under a path that nothing checked for uniqueness
+SigF35(pre, cx1, ev, res, post, cx2, pred) ==
+  /\ pred \in {"PathsUnique", "IdxExact", "LookupExact", "PathIsAncestorNames", "ReportExact", "ReportIffUnresolvable", "FileTextExact", "EditsStayValid", "RefoExact"}
+  /\ ev.op \in {"Copy", "Move"} /\ res.t = "ok"
+  /\ ev.c \in 1..Len(pre.n) /\ pre.n[ev.c].k \in DOMAIN Schema /\ Schema[pre.n[ev.c].k].name = "SHORT-NAME"
+
+\* F36: the source of a copy may be (or contain) an element of an identifiable kind that has no SHORT-NAME - a handle to a removed
+\* element, whose content is gone, or an element that a lenient load left unnamed: the copy puts an unnamed element into the model
+Unnamed(o, x) == /\ o.n[x].k \in DOMAIN Schema /\ Schema[o.n[x].k].named
+                 /\ ~(Len(o.n[x].cont) > 0 /\ o.n[x].cont[1].t = "e" /\ o.n[o.n[x].cont[1].id].k \in DOMAIN Schema
+                       /\ Schema[o.n[o.n[x].cont[1].id].k].name = "SHORT-NAME")
+SigF36(pre, cx1, ev, res, post, cx2, pred) ==
+  /\ pred \in {"EditsStayValid", "CopyStillValidates", "CopyFaithful", "CopyFindable"}
+  /\ ev.op = "Copy" /\ res.t = "ok" /\ ev.c \in 1..Len(pre.n)
+  /\ \E x \in P!PSeqToSet(P!ODfs(pre, ev.c)) : Unnamed(pre, x)
+
 KFMatch(pre, cx1, ev, res, post, cx2, pred) ==
-  {id \in {"F7", "F21", "F22", "F26", "F29"} :
+  {id \in {"F7", "F21", "F22", "F26", "F29", "F35", "F36"} :
      CASE id = "F7" -> SigF7(pre, cx1, ev, res, post, cx2, pred)
        [] id = "F21" -> SigF21(pre, cx1, ev, res, post, cx2, pred)
        [] id = "F22" -> SigF22(pre, cx1, ev, res, post, cx2, pred)
        [] id = "F26" -> SigF26(pre, cx1, ev, res, post, cx2, pred)
-       [] id = "F29" -> SigF29(pre, cx1, ev, res, post, cx2, pred)}
+       [] id = "F29" -> SigF29(pre, cx1, ev, res, post, cx2, pred)
+       [] id = "F35" -> SigF35(pre, cx1, ev, res, post, cx2, pred)
+       [] id = "F36" -> SigF36(pre, cx1, ev, res, post, cx2, pred)}
 =============================================================================
